@@ -28,7 +28,9 @@ import (
 	"github.com/dolthub/dolt/go/libraries/doltcore/remotesrv"
 	"github.com/dolthub/dolt/go/libraries/doltcore/remotestorage"
 	"github.com/dolthub/dolt/go/libraries/utils/filesys"
+	"github.com/dolthub/dolt/go/store/chunks"
 	"github.com/dolthub/dolt/go/store/datas"
+	"github.com/dolthub/dolt/go/store/hash"
 	"github.com/dolthub/dolt/go/store/nbs"
 	"github.com/dolthub/dolt/go/store/prolly/tree"
 	"github.com/dolthub/dolt/go/store/types"
@@ -51,8 +53,40 @@ type REM struct{}
 
 type RemFault struct {
 	Kind string `json:"kind"` // disk-eio | disk-dead | crash | net
-	K    int    `json:"k"`
-	Rate int    `json:"rate,omitempty"` // net: one exchange in Rate is disturbed
+	// disk faults: the K-th operation of class Class on the destination fails (the ordinal is counted
+	// per class because the puller writes, uploads and finalises in different goroutines: a global
+	// ordinal would name a different operation from one execution to the next)
+	Class string `json:"class,omitempty"`
+	K     int    `json:"k"`
+	Rate  int    `json:"rate,omitempty"` // net: one exchange in Rate is disturbed
+}
+
+var remFaultClasses = []string{"create:table", "create:temp", "write:table", "write:temp", "rename:table", "rename:temp", "remove:any"}
+
+// remClass names a mutating file operation by kind and by the sort of file it touches.
+func remClass(c *simos.Call) string {
+	op := c.Op
+	switch op {
+	case "open", "create":
+		op = "create"
+	case "write", "writeat":
+		op = "write"
+	case "rename", "link":
+		op = "rename"
+	case "remove", "removeall":
+		return "remove:any"
+	default:
+		return op + ":any"
+	}
+	p := c.Path
+	if op == "rename" && c.Path2 != "" {
+		p = c.Path2
+	}
+	b := filepath.Base(p)
+	if len(b) == 32 || strings.HasSuffix(b, nbs.ArchiveFileSuffix) {
+		return op + ":table"
+	}
+	return op + ":temp"
 }
 
 type RemStep struct {
@@ -71,12 +105,36 @@ type RemBody struct {
 	Steps      []RemStep `json:"steps"`
 	// Only pins one crash image (replay of a violation found in one).
 	Only *RemCrash `json:"only,omitempty"`
+	// Race, when set, replaces Steps by concurrent pushers under the S1 scheduler.
+	Race *RemRace `json:"race,omitempty"`
 }
 
+// RemRace: 2-3 sessions (one per database) commit on main and push it without --force while the
+// others do the same; a rejected pusher pulls and tries again. The scheduler parks them between
+// statements and, inside a transfer, before the remote store's Root / Rebase / Commit /
+// AddTableFilesToManifest (file remote) or before every unary RPC and upload (HTTP remote) - the
+// window between a push's fast-forward check and its compare-and-swap of the remote's root.
+type RemRace struct {
+	Sched  []int `json:"sched,omitempty"`
+	PCT    int   `json:"pct"`
+	NTasks int   `json:"ntasks"`
+	Iters  int   `json:"iters"`
+}
+
+// RemCrash names a crash point inside a transfer by the ordinal of a structural file-system event
+// on the destination (create, rename, unlink, fsync, manifest or journal write) rather than by an
+// absolute op-log position, which shifts with the interleaving of the puller's helper goroutines.
 type RemCrash struct {
 	Step    int           `json:"step"`
-	Pos     int           `json:"pos"`
+	Ord     int           `json:"ord"`
+	Before  bool          `json:"before,omitempty"`
 	Variant simos.Variant `json:"variant"`
+}
+
+type remCrashPos struct {
+	ord    int
+	before bool
+	pos    int
 }
 
 func (REM) Generate(seed uint64, tier string) *core.Scenario {
@@ -86,6 +144,11 @@ func (REM) Generate(seed uint64, tier string) *core.Scenario {
 		b.Backend = "http"
 	}
 	b.TargetSize = []uint64{1 << 30, 1 << 30, 16384, 4096, 1024}[r.Intn(5)]
+	if r.Chance(1, 4) {
+		b.Race = &RemRace{PCT: []int{0, 0, 2, 3}[r.Intn(4)], NTasks: r.Range(2, 3), Iters: r.Range(2, 4)}
+		raw, _ := json.Marshal(b)
+		return &core.Scenario{Property: "C35", Harness: "C35", Seed: seed, Tier: tier, Body: raw}
+	}
 	n := r.Range(12, 36)
 	if tier == "thorough" && r.Chance(1, 3) {
 		n = r.Range(36, 80)
@@ -125,9 +188,9 @@ func (REM) Generate(seed uint64, tier string) *core.Scenario {
 			f := &RemFault{K: r.Range(1, 14)}
 			switch y := r.Intn(10); {
 			case y < 3:
-				f.Kind = "disk-eio"
+				f.Kind, f.Class, f.K = "disk-eio", remFaultClasses[r.Intn(len(remFaultClasses))], r.Range(1, 4)
 			case y < 5:
-				f.Kind = "disk-dead"
+				f.Kind, f.Class, f.K = "disk-dead", remFaultClasses[r.Intn(len(remFaultClasses))], r.Range(1, 4)
 			case y < 8:
 				f.Kind = "crash"
 			default:
@@ -285,8 +348,41 @@ type remRun struct {
 	nClone  int
 	step    int
 	netRate int
-	netRand *core.Rand
 	netSeed uint64
+	events  []string          // semantic log: one line per step, commits named by where they first appeared
+	labels  map[string]string // commit hash -> label
+}
+
+// label names a commit independently of its hash (hashes contain timestamps, and the retry back-off
+// of the remote client advances the clock by randomised amounts).
+func (x *remRun) label(h string) string {
+	if h == "" {
+		return "-"
+	}
+	if l, ok := x.labels[h]; ok {
+		return l
+	}
+	l := fmt.Sprintf("c%d@%d", len(x.labels), x.step)
+	x.labels[h] = l
+	return l
+}
+
+func (x *remRun) event(format string, a ...any) {
+	x.events = append(x.events, fmt.Sprintf("%d ", x.step)+fmt.Sprintf(format, a...))
+	if dbg := os.Getenv("DSIM_DEBUG_C35"); dbg != "" {
+		if f, err := os.OpenFile(dbg, os.O_APPEND|os.O_CREATE|os.O_WRONLY, 0o644); err == nil {
+			fmt.Fprintln(f, x.events[len(x.events)-1])
+			f.Close()
+		}
+	}
+}
+
+func (x *remRun) headsLine(m map[string]string) string {
+	var out []string
+	for _, b := range sortedBranches(m) {
+		out = append(out, b+"="+x.label(m[b]))
+	}
+	return strings.Join(out, ",")
 }
 
 func (REM) Execute(t *testing.T, sc *core.Scenario) *core.Result {
@@ -310,7 +406,7 @@ func (REM) Execute(t *testing.T, sc *core.Scenario) *core.Result {
 	doltdb.DsimPullTargetFileSize = b.TargetSize
 	defer func() { doltdb.DsimPullTargetFileSize = oldTarget }()
 
-	x := &remRun{ctx: ctx, res: res, sos: sos, b: &b, sc: sc, root: root, remote: map[string]string{}, parents: map[string][]string{}, nextPK: 100}
+	x := &remRun{ctx: ctx, res: res, sos: sos, b: &b, sc: sc, root: root, remote: map[string]string{}, parents: map[string][]string{}, nextPK: 100, labels: map[string]string{}}
 	x.net = &simnet.Net{}
 	x.net.Decide = x.netDecide
 	oldHTTP := dbfactory.DBFactories[dbfactory.HTTPScheme]
@@ -345,9 +441,17 @@ func (REM) Execute(t *testing.T, sc *core.Scenario) *core.Result {
 	if !x.setup() {
 		return res
 	}
+	if b.Race != nil {
+		x.runRace()
+		return res
+	}
 	for i := range b.Steps {
 		x.step = i
 		x.doStep(&b.Steps[i])
+		x.event("%s remote[%s]", b.Steps[i].Op, x.headsLine(x.remote))
+		for _, d := range x.dbs {
+			x.event("  %s[%s] tracks[%s]", d.name, x.headsLine(d.heads), x.headsLine(d.tracks))
+		}
 		if res.Violated() || res.Panic != "" {
 			break
 		}
@@ -368,7 +472,7 @@ func (REM) Execute(t *testing.T, sc *core.Scenario) *core.Result {
 		}
 		sig = append(sig, st.Op+f)
 	}
-	res.LogHash = fmt.Sprintf("%x", core.Hash64(append(sig, fmt.Sprint(res.Probes), fmt.Sprint(res.Faults))...))
+	res.LogHash = fmt.Sprintf("%x", core.Hash64(append(sig, x.events...)...))
 	if res.Probes["transfer_ok"] > 0 && (len(res.Faults) > 0) {
 		res.CaseHashes = append(res.CaseHashes, core.Hash64(res.LogHash))
 	} else {
@@ -624,9 +728,9 @@ func (x *remRun) checkout(d *remDB, br string) bool {
 
 // armFault installs the fault of a transfer step; the returned function removes it and reports how
 // often it fired and the op-log positions of the destination's mutations (for crash images).
-func (x *remRun) armFault(f *RemFault, destRel string) func() (fired int, positions []int) {
+func (x *remRun) armFault(f *RemFault, destRel string) func() (fired int, positions []remCrashPos) {
 	if f == nil {
-		return func() (int, []int) { return 0, nil }
+		return func() (int, []remCrashPos) { return 0, nil }
 	}
 	start := x.sos.LogLen()
 	fired := 0
@@ -644,6 +748,9 @@ func (x *remRun) armFault(f *RemFault, destRel string) func() (fired int, positi
 			if b := filepath.Base(c.Path); b == nbs.DsimJournalFileName || b == "journal.idx" || b == nbs.DsimManifestFileName || strings.HasPrefix(b, "nbs_manifest_") || c.Op == "fsync" {
 				return nil
 			}
+			if !dead && remClass(c) != f.Class {
+				return nil
+			}
 			n++
 			if dead || n == f.K {
 				fired++
@@ -658,7 +765,7 @@ func (x *remRun) armFault(f *RemFault, destRel string) func() (fired int, positi
 		x.netRate = f.Rate
 		x.netSeed = x.b.Seed ^ uint64(x.step+1)*0x2545f4914f6cdd1d
 	}
-	return func() (int, []int) {
+	return func() (int, []remCrashPos) {
 		x.sos.Fault = nil
 		x.netRate = 0
 		if f.Kind == "net" {
@@ -672,16 +779,22 @@ func (x *remRun) armFault(f *RemFault, destRel string) func() (fired int, positi
 		if f.Kind != "crash" {
 			return fired, nil
 		}
-		var pos []int
+		var pos []remCrashPos
 		log := x.sos.Log()
+		ord := 0
 		for i := start; i < len(log); i++ {
 			e := &log[i]
-			if e.Kind == simos.EvMarker || e.Kind == simos.EvFault {
+			if e.Kind == simos.EvMarker || e.Kind == simos.EvFault || !(under(e.Path) || under(e.Path2)) {
 				continue
 			}
-			if under(e.Path) || under(e.Path2) {
-				pos = append(pos, i+1)
+			if e.Kind == simos.EvWrite {
+				fc := dstore.FileClass(e.Path, "")
+				if fc != "manifest" && fc != "temp-manifest" && fc != "journal" {
+					continue
+				}
 			}
+			pos = append(pos, remCrashPos{ord, true, i}, remCrashPos{ord, false, i + 1})
+			ord++
 		}
 		return 0, pos
 	}
@@ -718,6 +831,7 @@ func (x *remRun) doStep(st *RemStep) {
 		name := fmt.Sprintf("f%d", len(d.heads)+x.step)
 		if _, err := s.Exec(x.ctx, "CALL dolt_branch('"+name+"')"); err == nil {
 			res.Probe("branch_created")
+			x.event("branch_created")
 		}
 		x.refresh()
 		return
@@ -744,9 +858,11 @@ func (x *remRun) doStep(st *RemStep) {
 		}
 		if _, err := s.Exec(x.ctx, fmt.Sprintf("CALL dolt_commit('-Am', 'step %d on %s/%s')", x.step, d.name, br)); err != nil {
 			res.Probe("commit_refused")
+			x.event("commit_refused")
 			return
 		}
 		res.Probe("commits")
+		x.event("commits")
 		x.refresh()
 		return
 	}
@@ -780,6 +896,7 @@ func (x *remRun) doStep(st *RemStep) {
 		if err == nil {
 			res.Probe("transfer_ok")
 			res.Probe("push_ok")
+			x.event("push_ok")
 			if had && !st.Force && !x.isAncestor(old, local) {
 				res.Violate("non-fast-forward-push-accepted", "force=false", x.step, "push of %s/%s (%s) succeeded without --force although the remote branch was at %s, which is not an ancestor of it: commits were removed from the remote branch", d.name, br, local, old)
 			}
@@ -790,6 +907,7 @@ func (x *remRun) doStep(st *RemStep) {
 			x.verify("push", st, nil)
 		} else {
 			res.Probe("push_failed")
+			x.event("push_failed")
 			if st.Fault == nil && (!had || x.isAncestor(old, local)) {
 				res.Probe("push_failed_without_fault:" + firstLine(err)[:min(60, len(firstLine(err)))])
 			}
@@ -817,6 +935,7 @@ func (x *remRun) doStep(st *RemStep) {
 		if err == nil {
 			res.Probe("transfer_ok")
 			res.Probe("fetch_ok")
+			x.event("fetch_ok")
 			for _, br := range sortedBranches(x.remote) {
 				if d.tracks["origin/"+br] != x.remote[br] {
 					res.Violate("fetched-ref-not-at-remote-head", "op=fetch", x.step, "after a successful fetch %s has origin/%s at %q, the remote branch is at %s", d.name, br, d.tracks["origin/"+br], x.remote[br])
@@ -824,6 +943,7 @@ func (x *remRun) doStep(st *RemStep) {
 			}
 		} else {
 			res.Probe("fetch_failed")
+			x.event("fetch_failed")
 			for _, k := range sortedBranches(d.tracks) {
 				br := strings.TrimPrefix(k, "origin/")
 				if d.tracks[k] != beforeTracks[k] && d.tracks[k] != x.remote[br] {
@@ -859,6 +979,7 @@ func (x *remRun) doStep(st *RemStep) {
 		if err == nil {
 			res.Probe("transfer_ok")
 			res.Probe("pull_ok")
+			x.event("pull_ok")
 			if !x.isAncestor(x.remote[br], d.heads[br]) {
 				res.Violate("pulled-branch-misses-remote-commits", "op=pull", x.step, "after a successful pull of %s into %s the branch is at %s, which does not contain the remote head %s", br, d.name, d.heads[br], x.remote[br])
 			}
@@ -867,6 +988,7 @@ func (x *remRun) doStep(st *RemStep) {
 			}
 		} else {
 			res.Probe("pull_failed")
+			x.event("pull_failed")
 		}
 		if oldLocal != "" && !x.isAncestor(oldLocal, d.heads[br]) {
 			res.Violate("local-commits-lost-by-pull", "op=pull", x.step, "branch %s of %s was at %s before the pull and is at %s, which does not contain it", br, d.name, oldLocal, d.heads[br])
@@ -885,6 +1007,7 @@ func (x *remRun) doStep(st *RemStep) {
 		if err == nil {
 			res.Probe("transfer_ok")
 			res.Probe("clone_ok")
+			x.event("clone_ok")
 			c := &remDB{name: name, dir: rel}
 			x.dbs = append(x.dbs, c)
 			if !x.refresh() {
@@ -904,6 +1027,7 @@ func (x *remRun) doStep(st *RemStep) {
 			}
 		} else {
 			res.Probe("clone_failed")
+			x.event("clone_failed")
 			// nothing of a failed clone may be visible as a database
 			if rows, err := s.Exec(x.ctx, "SHOW DATABASES LIKE '"+name+"'"); err == nil && len(rows) > 0 {
 				res.Probe("failed_clone_left_a_database")
@@ -958,7 +1082,7 @@ func (x *remRun) localUnchanged(d *remDB, before map[string]string, op, except s
 // crashImages: the process dies at file-operation positions inside the transfer; the destination's
 // directory as the simulated disk would hold it is re-opened with the real code and every ref it
 // shows must have its data.
-func (x *remRun) crashImages(st *RemStep, positions []int, destRel string, journal bool, headsOK func(map[string]string) string) {
+func (x *remRun) crashImages(st *RemStep, positions []remCrashPos, destRel string, journal bool, headsOK func(map[string]string) string) {
 	if st.Fault == nil || st.Fault.Kind != "crash" || len(positions) == 0 || x.res.Violated() {
 		return
 	}
@@ -969,17 +1093,21 @@ func (x *remRun) crashImages(st *RemStep, positions []int, destRel string, journ
 		{Name: "names-only", Dirs: "all", Default: simos.FileVariant{Mode: "durable"}},
 	}
 	type cs struct {
-		pos int
-		v   simos.Variant
+		remCrashPos
+		v simos.Variant
 	}
 	var cases []cs
 	if x.b.Only != nil {
 		if x.b.Only.Step != x.step {
 			return
 		}
-		cases = []cs{{x.b.Only.Pos, x.b.Only.Variant}}
+		for _, p := range positions {
+			if p.ord == x.b.Only.Ord && p.before == x.b.Only.Before {
+				cases = []cs{{p, x.b.Only.Variant}}
+			}
+		}
 	} else {
-		max := 14
+		max := 24
 		stride := (len(positions) + max - 1) / max
 		off := st.Fault.K % stride
 		for i, p := range positions {
@@ -1023,7 +1151,7 @@ func (x *remRun) crashImages(st *RemStep, positions []int, destRel string, journ
 				return
 			}
 			b2 := *x.b
-			b2.Only = &RemCrash{Step: x.step, Pos: c.pos, Variant: c.v}
+			b2.Only = &RemCrash{Step: x.step, Ord: c.ord, Before: c.before, Variant: c.v}
 			v.Pinned, _ = json.Marshal(b2)
 		}
 		res.Evaluations++
@@ -1121,4 +1249,205 @@ func (REM) Shrinks(sc *core.Scenario) []*core.Scenario {
 		emit(nb)
 	}
 	return out
+}
+
+// ---- concurrent pushers ---------------------------------------------------------------------------
+
+type raceStore struct {
+	*nbs.GenerationalNBS
+	y func(string)
+}
+
+func (r raceStore) Root(ctx context.Context) (hash.Hash, error) {
+	r.y("remote.Root")
+	return r.GenerationalNBS.Root(ctx)
+}
+func (r raceStore) Rebase(ctx context.Context) error {
+	r.y("remote.Rebase")
+	return r.GenerationalNBS.Rebase(ctx)
+}
+func (r raceStore) Commit(ctx context.Context, cur, last hash.Hash) (bool, error) {
+	r.y("remote.Commit")
+	return r.GenerationalNBS.Commit(ctx, cur, last)
+}
+func (r raceStore) AddTableFilesToManifest(ctx context.Context, m map[string]int, ga chunks.InsertAddrsCurry) error {
+	r.y("remote.AddTableFilesToManifest")
+	return r.GenerationalNBS.AddTableFilesToManifest(ctx, m, ga)
+}
+
+func (x *remRun) runRace() {
+	res, rc := x.res, x.b.Race
+	// a third database for the third pusher
+	if rc.NTasks > 2 {
+		if err := x.session(x.dbs[0]).MustExec(x.ctx, "CALL dolt_clone('"+x.url+"', 'third')"); err != nil {
+			x.fail("race setup: %v", err)
+			return
+		}
+		x.dbs = append(x.dbs, &remDB{name: "third", dir: "test/third"})
+	}
+	ch := core.NewChooser(x.b.Seed, rc.Sched)
+	s := core.NewSched(ch)
+	s.PCTDepth, s.PCTSteps = rc.PCT, 80
+	s.KeepTrace = len(rc.Sched) > 0
+	seamYields := 0
+	yield := func(l string) {
+		if s.YieldCurrent(l) {
+			seamYields++
+		}
+	}
+	if x.hub != nil {
+		x.net.Before = func(kind, name string) {
+			if kind == "rpc" || (kind == "http" && name != "GET") {
+				switch name {
+				case "HasChunks", "GetDownloadLocations", "RefreshTableFileUrl":
+					return // issued by the chunk fetcher's own goroutines, several at a time
+				}
+				yield("net." + name)
+			}
+		}
+		defer func() { x.net.Before = nil }()
+	} else {
+		// the file remote is one store object per process (dbfactory's cache): wrap it before anybody uses it
+		_, v := dbfactory.DsimSingletonVRW(x.remDir)
+		vs, ok := v.(*types.ValueStore)
+		if !ok {
+			x.fail("race setup: the file remote is not in dbfactory's cache (%T)", v)
+			return
+		}
+		wrapped := false
+		vs.DsimWrapChunkStore(func(cs chunks.ChunkStore) chunks.ChunkStore {
+			if g, ok := cs.(*nbs.GenerationalNBS); ok {
+				wrapped = true
+				return raceStore{g, yield}
+			}
+			return cs
+		})
+		if !wrapped {
+			x.fail("race setup: the file remote's chunk store is %T", vs.DsimChunkStore())
+			return
+		}
+	}
+	var mu sync.Mutex
+	type ack struct {
+		who    string
+		commit string
+		it     int
+	}
+	var acked []ack
+	rejected, pulled := 0, 0
+	task := func(d *remDB) func(*core.Task) {
+		return func(tk *core.Task) {
+			ws := x.session(d)
+			if ws == nil {
+				return
+			}
+			for it := 0; it < rc.Iters; it++ {
+				tk.Yield("stmt")
+				mu.Lock()
+				x.nextPK++
+				pk := x.nextPK
+				mu.Unlock()
+				if _, err := ws.Exec(x.ctx, fmt.Sprintf("INSERT INTO t VALUES (%d, '%s', 'race %d')", pk, d.name, it)); err != nil {
+					res.Violate("insert-failed", "mode=race", it, "%s: %s", d.name, firstLine(err))
+					return
+				}
+				if _, err := ws.Exec(x.ctx, fmt.Sprintf("CALL dolt_commit('-Am', 'race %s %d')", d.name, it)); err != nil {
+					res.Violate("commit-failed", "mode=race", it, "%s: %s", d.name, firstLine(err))
+					return
+				}
+				for attempt := 0; attempt < 3; attempt++ {
+					tk.Yield("stmt")
+					rows, err := ws.Exec(x.ctx, "SELECT hash FROM dolt_branches WHERE name = 'main'")
+					if err != nil || len(rows) != 1 {
+						res.Violate("read-failed", "mode=race", it, "%s: %v", d.name, err)
+						return
+					}
+					head := rows[0][0]
+					tk.Yield("stmt")
+					if _, err := ws.Exec(x.ctx, "CALL dolt_push('origin', 'main')"); err == nil {
+						mu.Lock()
+						acked = append(acked, ack{d.name, head, it})
+						mu.Unlock()
+						res.Probe("push_ok")
+						res.Probe("transfer_ok")
+						break
+					}
+					mu.Lock()
+					rejected++
+					mu.Unlock()
+					tk.Yield("stmt")
+					if _, err := ws.Exec(x.ctx, "CALL dolt_pull('origin', 'main')"); err != nil {
+						ws.Exec(x.ctx, "CALL dolt_merge('--abort')")
+						res.Probe("pull_failed")
+					} else {
+						mu.Lock()
+						pulled++
+						mu.Unlock()
+					}
+				}
+			}
+		}
+	}
+	for _, d := range x.dbs {
+		s.Go("pusher-"+d.name, task(d))
+	}
+	if msg := s.Run(); msg != "" {
+		res.Violate("pushers-stuck", "mode=race", 0, "scheduler: %s [%s]\n%s\n%s", msg, s.States(), strings.Join(s.Trace, "\n"), taskStacks())
+		return
+	}
+	res.FaultN("context-switch", s.Switches)
+	res.ProbeN("race_seam_yields", seamYields)
+	res.ProbeN("non_ff_push_refused", rejected)
+	res.ProbeN("pull_ok", pulled)
+	x.net.Before = nil
+	if !x.refresh() {
+		return
+	}
+	// every acknowledged push must still be contained in the remote's branch: nobody forced
+	rdb, err := x.openStoreDir(x.remDir, false)
+	if err != nil {
+		res.Violate("remote-unreadable", "mode=race", 0, "%s", firstLine(err))
+		return
+	}
+	heads, err := branchHeads(x.ctx, rdb)
+	rdb.Close()
+	if err != nil {
+		res.Violate("remote-unreadable", "mode=race", 0, "%s", firstLine(err))
+		return
+	}
+	final := heads["main"]
+	// the final head may be a commit no database has yet fetched its ancestors for: fetch everywhere
+	for _, d := range x.dbs {
+		x.session(d).Exec(x.ctx, "CALL dolt_fetch('origin')")
+	}
+	x.refresh()
+	res.Evaluations++
+	for _, a := range acked {
+		if !x.isAncestor(a.commit, final) {
+			res.Violate("acknowledged-push-lost", "mode=race", a.it, "%s pushed %s to main without --force and was told it succeeded; the remote's main ends at %s, which does not contain it: two pushes succeeded against the same old head (acknowledged pushes: %v)", a.who, a.commit, final, acked)
+			break
+		}
+	}
+	x.remote["main"] = final
+	x.verify("concurrent pushes", nil, nil)
+	res.Ops = s.Switches + len(acked)
+	res.LogHash = s.Hash()
+	if s.Switches > 0 && len(acked) > 0 {
+		res.CaseHashes = append(res.CaseHashes, core.Hash64(s.Hash()))
+	} else {
+		res.Trivial = 1
+	}
+	if res.Violated() {
+		b2 := *x.b
+		r2 := *rc
+		r2.Sched = s.Decisions()
+		b2.Race = &r2
+		pinned, _ := json.Marshal(b2)
+		for _, v := range res.Violations {
+			if len(v.Pinned) == 0 {
+				v.Pinned = pinned
+			}
+		}
+	}
+	res.Sample = map[string]any{"mode": "race", "backend": x.b.Backend, "pushers": len(x.dbs), "iterations": rc.Iters, "acknowledged_pushes": len(acked), "rejected_pushes": rejected, "switches": s.Switches, "seam_yields": seamYields}
 }
